@@ -103,6 +103,13 @@ pub fn determinism(name: &str, wasm: &[u8], out: &mut Vec<Json>) {
         if a != a2 { let (da, db) = (amod::decode(&a).ok(), amod::decode(&a2).ok());
             let which: Vec<String> = match (&da, &db) { (Some(x), Some(y)) => x.customs.iter().zip(y.customs.iter()).filter(|(p, q)| p != q).map(|(p, _)| format!("custom section `{}`", p.0)).collect(), _ => vec![] };
             out.push(v("not-a-fixpoint", "C08", format!("{}: with generate_synthetic_names_for_anonymous_items, re-parsing walrus's own output and emitting again does not reproduce it ({} vs {} bytes; differing: {:?})", name, a.len(), a2.len(), which), wasm, crate::c03::hex(&a2), crate::c03::hex(&a))); } }
+    // the file entry points read and write the very same bytes: emit_wasm_file = emit_wasm, Module::from_file = Module::from_buffer
+    { let path = std::env::temp_dir().join(format!("vh-emit-file-{}.wasm", std::process::id()));
+      if let Some(Some((direct, via_file, reread))) = catch(|| { let mut m = Module::from_buffer(wasm).ok()?; let direct = m.emit_wasm(); m.emit_wasm_file(&path).ok()?; let via_file = std::fs::read(&path).ok()?;
+            let reread = Module::from_file(&path).ok()?.emit_wasm(); Some((direct, via_file, reread)) }) {
+          if direct != via_file { out.push(v("repeated-emit-differs", "C08", format!("{}: emit_wasm_file writes other bytes ({}) than emit_wasm returns ({})", name, via_file.len(), direct.len()), wasm, crate::c03::hex(&via_file), crate::c03::hex(&direct))); }
+          if let Some(Some(a2)) = catch(|| { Some(Module::from_buffer(&direct).ok()?.emit_wasm()) }) { if a2 != reread { out.push(v("not-a-fixpoint", "C08", format!("{}: Module::from_file and Module::from_buffer of the same bytes are emitted differently", name), wasm, crate::c03::hex(&reread), crate::c03::hex(&a2))); } } }
+      let _ = std::fs::remove_file(&path); }
     // ... and so is the output of a module the GC pass has run on
     if let Some(Some(g)) = catch(|| { let mut m = Module::from_buffer(wasm).ok()?; passes::gc::run(&mut m); Some(m.emit_wasm()) }) { fixpoint_of_output(&format!("{} (after gc)", name), wasm, &g, out); }
 }
